@@ -372,14 +372,15 @@ def generated_statement_lists():
         ]),
     ]
     plan = [(name, base, muts) for name, muts in progs]
-    if os.environ.get('VERIF_TIER') == 'thorough':
-        # every single mutation of the E2 alphabet on two of its base model sets (the lists the real
-        # generator emits for them), as far as they are valid and have at least two statements
-        from vlib import e2run
-        specs = e2run.base_specs()
-        for bname in ('plain', 'custom'):
-            for i, m in enumerate(e2run.mutation_alphabet(specs[bname])):
-                plan.append(('%s_%d' % (bname, i), specs[bname], [m]))
+    # every single mutation of the E2 alphabet on its base model sets (the lists the real generator
+    # emits for them), as far as they are valid and have at least two statements:
+    # quick: base `plain`; thorough: `plain` and `custom`
+    from vlib import e2run
+    specs = e2run.base_specs()
+    bases = ('plain', 'custom') if os.environ.get('VERIF_TIER') == 'thorough' else ('plain',)
+    for bname in bases:
+        for i, m in enumerate(e2run.mutation_alphabet(specs[bname])):
+            plan.append(('%s_%d' % (bname, i), specs[bname], [m]))
     for name, pbase, muts in plan:
         try:
             if pbase is not base:
